@@ -420,6 +420,9 @@ class MetadorGroup(MetadorNode):
         self._guard_path(name)
 
         node = self[name]
+        if node.name == "/":
+            # cannot work (raw delete fails), must not cost the metadata
+            raise KeyError("Cannot delete the root group!")
         # clean up metadata (recursively, if a group)
         node._destroy_meta()
         # kill the actual data
